@@ -102,7 +102,7 @@ func closuresByBranch(fn *ssa.Function, predName string) map[bool]*ssa.Function 
 
 func c05() []*Ob {
 	return []*Ob{
-		{Prop: "C05", ID: "C05.1", Engine: "ORDER+PROV", Floor: 3,
+		{Prop: "C05", ID: "C05.1", Engine: "ORDER+PROV", Floor: 2,
 			Desc: "sort, then chunk: prepareFracs filters by range and sorts by the request order; SearchDocs shifts chunks off exactly that list and shrinks the limit from the merged ids and the remaining fractions",
 			Check: func(c *Ctx) {
 				if fn := c.Fn("(*fracmanager.Searcher).prepareFracs"); fn != nil {
@@ -145,7 +145,7 @@ func c05() []*Ob {
 					}
 				}
 			}},
-		{Prop: "C05", ID: "C05.2", Engine: "PAIR", Floor: 4,
+		{Prop: "C05", ID: "C05.2", Engine: "PAIR", Floor: 2,
 			Desc: "the sort key is the cut key: for each DocsOrder constant, List.Sort orders fractions by the same border (To for descending, From for ascending) that calcEnsuredIDsCount compares ids with, and that comparison is non-strict (ids equal to the border are not final)",
 			Check: func(c *Ctx) {
 				sortFn, ensFn := c.Fn("(fracmanager.List).Sort"), c.Fn("fracmanager.calcEnsuredIDsCount")
@@ -192,7 +192,7 @@ func c05() []*Ob {
 					}
 				}
 			}},
-		{Prop: "C05", ID: "C05.4", Engine: "PROV+ORDER", Floor: 4,
+		{Prop: "C05", ID: "C05.4", Engine: "PROV+ORDER", Floor: 2,
 			Desc: "limits and arguments: the store searches with limit = size + offset; the proxy merges with offset + size and paginates after the merge; every MergeQPRs call in the proxy takes interval and order from the search request",
 			Check: func(c *Ctx) {
 				if fn := c.Fn("(*storeapi.GrpcV1).doSearch"); fn != nil {
